@@ -2645,6 +2645,10 @@ def model_std_hir(n, facts):
             none = {'k': 'path', 'res': 'def', 'path': 'std::prelude::v1::None', 'local': False, 'ty': ty}
             return {'k': 'if', 'cond': out['recv'], 'then': {'k': 'block', 'stmts': [], 'tail': some}, 'else': {'k': 'block', 'stmts': [], 'tail': none},
                     'ty': ty, 'line': out.get('line'), 'modelled': 'bool::then'}
+    if out.get('k') == 'mcall' and out.get('name') == 'contains' and (out.get('path') or '') == 'fixedbitset::FixedBitSet::contains' and len(out.get('args', [])) == 1:
+        # `bits.contains(i)` is how `bits[i]` is defined (`impl Index<usize> for FixedBitSet`): one spelling
+        return {'k': 'index', 'overloaded': 'std::ops::Index::index', 'base_ty': 'fixedbitset::FixedBitSet', 'base': out['recv'], 'idx': out['args'][0],
+                'ty': 'bool', 'line': out.get('line'), 'modelled': 'FixedBitSet::contains'}
     return out
 
 
